@@ -25,7 +25,7 @@ EXTRA = {
     'C10': 'every field the domain guard of Locate reads is computed after the abscissae received their unit factor; Export_Table checks the length of every row; an order guard written with std::adjacent_find',
     'C12': 'the rule builder and the three integrators keep no history-carrying local state (exact caches exempt)',
     'C14': 'the bin of a Vegas sample point is the integer part of its own stratified coordinate; every value Miser writes into its mean is the mean of the box\'s own samples or the fraction-weighted mean of its two halves',
-    'C15': 'QR and the eigen routines inherit C04's obligations about Norm/Normalize/products/block constructor; C15.a/b/c are decided on normal forms of object-valued terms (reflector I-2uu^T, one QR sweep incl. early-continue paths, one QR iteration and its convergence measure)',
+    'C15': 'QR and the eigen routines inherit the obligations of C04 about Norm/Normalize/products/block constructor; C15.a/b/c are decided on normal forms of object-valued terms (reflector I-2uu^T, one QR sweep incl. early-continue paths, one QR iteration and its convergence measure)',
     'C19': 'Range written with a precomputed length is evaluated as a closed form on the complete domain min,max in [-40,40], stepsize 1..40',
     'C20': 'Count_Lines counts every line unconditionally; Export/Import element and unit terms are evaluated in the loop state',
 }
